@@ -546,8 +546,9 @@ impl LanguageServer for IncanLanguageServer {
         let version = params.text_document.version;
         let ticket = self.take_ticket(&uri);
 
-        // We use FULL sync, so there's only one change with the full content
-        if let Some(change) = params.content_changes.into_iter().next() {
+        // We use FULL sync: every change carries the whole document and the changes apply in order, so the document's
+        // new state is the last one (usually there is exactly one).
+        if let Some(change) = params.content_changes.into_iter().last() {
             self.analyze_document(&uri, &change.text, version, ticket).await;
         }
     }
